@@ -11,10 +11,17 @@ def domains(tier, sis):
     """(constants for the TLC-only exhaustive run, list of constants for emission + replay)"""
     if tier == "quick":
         mc = netepi.netepi_constants(3, {1, 2}, {1, 2}, {0, 1, 2}, {0, 1, 2}, sis)
-        replay = [
-            ("weighted-3", netepi.netepi_constants(3, {1, 2}, {1, 2}, {0, 1, 2}, {0, 1, 2}, sis), True),
-            ("unweighted-4", netepi.netepi_constants(4, {1}, {1}, {0, 1, 2}, {0, 2}, sis), False),
-        ]
+        if sis:
+            # the SIS trees grow with the event horizon: fewer rate pairs in the quick tier
+            replay = [
+                ("weighted-3", netepi.netepi_constants(3, {1, 2}, {1, 2}, {0, 2}, {0, 1}, sis), True),
+                ("unweighted-4", netepi.netepi_constants(4, {1}, {1}, {1, 2}, {0, 2}, sis), False),
+            ]
+        else:
+            replay = [
+                ("weighted-3", netepi.netepi_constants(3, {1, 2}, {1, 2}, {0, 1, 2}, {0, 1, 2}, sis), True),
+                ("unweighted-4", netepi.netepi_constants(4, {1}, {1}, {0, 1, 2}, {0, 2}, sis), False),
+            ]
     else:
         mc = netepi.netepi_constants(4, {1, 2}, {1}, {0, 1, 2}, {0, 1, 2}, sis)
         replay = [
@@ -46,9 +53,9 @@ def gillespie_part(chk, sis, entry):
                 if "I" not in st0:
                     continue
                 if sis:
-                    hz = (5 if n <= 3 else 4) if tier == "quick" else (6 if n <= 3 else 5)
+                    hz = (4 if n <= 3 else 3) if tier == "quick" else (6 if n <= 3 else 5)
                     if weighted and n >= 4:
-                        hz = 4
+                        hz = min(hz, 4)
                     tasks.append({"key": key, "st0": st0, "sis": True, "weighted": weighted, "horizon": hz})
                 else:
                     tasks.append({"key": key, "st0": st0, "sis": False, "weighted": weighted})
@@ -88,11 +95,146 @@ def gillespie_part(chk, sis, entry):
                         "leaves": r0["leaves"]})
 
 
+_F = {}
+
+
+def _stat_chunk(arg):
+    """one chunk of seeded runs of fast_SIR / fast_SIS / Gillespie: histogram of the node-state vector at time T"""
+    import random
+    import numpy as np
+    (entry, n, w, g, tau, gam, st0, T, tmax, nruns, seed, weighted) = arg
+    EoN = _F["EoN"]
+    G = netepi.build_graph(n, w, g)
+    nodes = list(range(1, n + 1))
+    I0 = [u for u in nodes if st0[u - 1] == "I"]
+    R0 = [u for u in nodes if st0[u - 1] == "R"]
+    random.seed(seed)
+    np.random.seed(seed % (2 ** 32))
+    f = getattr(EoN, entry)
+    kw = dict(initial_infecteds=I0, return_full_data=True)
+    if weighted:
+        kw.update(transmission_weight="w", recovery_weight="g")
+    if R0:
+        kw["initial_recovereds"] = R0
+    if tmax is not None:
+        kw["tmax"] = tmax
+    obs = {}
+    for _ in range(nruns):
+        sim = f(G, tau * common.RATE_UNIT, gam * common.RATE_UNIT, **kw)
+        st = sim.get_statuses(nodelist=nodes, time=T)
+        k = tuple(st[u] for u in nodes)
+        obs[k] = obs.get(k, 0) + 1
+    return obs
+
+
+def statistical_part(chk, sis):
+    """disclosed statistical layer: the law of the full node-state vector at time T of the event-driven simulators
+    against p0 expm(QT) with Q assembled from the TLC-emitted NetEpi transitions; rejection threshold p < 1e-9"""
+    from harness import master
+    entry = "fast_SIS" if sis else "fast_SIR"
+    cases = [
+        (4, (1, 0, 2, 1, 0, 1), (1, 2, 1, 1), 2, 2, ("I", "S", "S", "S"), 0.75, True),
+        (4, (1, 1, 1, 0, 0, 0), (1, 1, 1, 1), 3, 2, ("I", "S", "S", "S"), 0.5, False),    # star, unweighted fast path
+        (4, (1, 0, 1, 1, 0, 1), (1, 1, 1, 1), 2, 1, ("S", "I", "S", "I"), 1.0, False),    # 4-cycle, two seeds
+        (3, (2, 1, 1), (2, 1, 1), 2, 3, ("S", "S", "I"), 0.6, True),
+    ]
+    if not sis:
+        cases.append((4, (1, 1, 0, 1, 0, 1), (1, 1, 2, 1), 2, 2, ("I", "S", "R", "S"), 0.9, True))   # an initially recovered node
+    per = 2500 if chk.tier == "quick" else 20000
+    for (n, w, g, tau, gam, st0, T, weighted) in cases:
+        trans, res = master.emit_one(n, w, g, tau, gam, sis)
+        chk.add_tlc("NetEpiOne generator for the statistical layer n=%d" % n, res)
+        exp = master.distribution_at(trans, n, sis, st0, T)
+        args = [(entry, n, w, g, tau, gam, st0, T, (T + 0.5) if sis else None, per, chk.seed * 1000 + k, weighted) for k in range(16)]
+        obs = {}
+        for o in pool_map(_stat_chunk, args):
+            for k, v in o.items():
+                obs[k] = obs.get(k, 0) + v
+        N = per * 16
+        pval, detail = master.g_test(obs, exp, N)
+        chk.cov["evaluations"] += N
+        chk.part(entry + " statistical layer", runs=N, cases=1)
+        chk.note("%s state-at-T law vs master equation (n=%d, %s path): p=%.3g (%s, N=%d)" % (entry, n, "weighted" if weighted else "unweighted", pval, detail, N))
+        if pval < 1e-9:
+            chk.violation("%s|state-at-T-law|%s" % (entry, "weighted" if weighted else "unweighted"),
+                          "the distribution of the node-state vector at T=%r differs from the master-equation solution (G-test p=%.3g, %s, N=%d)" % (T, pval, detail, N),
+                          {"case": [n, w, g, tau, gam, st0, T, weighted], "observed": {"".join(k): v for k, v in obs.items()},
+                           "expected": {"".join(k): v * N for k, v in exp.items() if v > 0}})
+    chk.assumptions.append("the law of %s at time T is compared with the master equation statistically (G-test, rejection threshold 1e-9); everything else in this check is exact" % entry)
+
+
+def _fsir(i):
+    from harness import event_sir
+    return event_sir.fast_sir_unweighted_scripted(_F["scn"][i], _F["refs"][i], _F["EoN"])
+
+
+def _fsis(i):
+    from harness import fast_sis
+    return fast_sis.replay(_F["scn"][i], _F["refs"][i], _F["EoN"])
+
+
+def fast_part(chk, sis, EoN):
+    """the event-driven simulators: draw protocol (exact) + statistical layer"""
+    from harness import event_scn, event_sir, fast_sis
+    from checks import c11
+    _F["EoN"] = EoN
+    if not sis:
+        scn = event_scn.sir_generic_scenarios(chk.seed, 800 if chk.tier == "quick" else 8000)
+        res = c11.model_check(scn)
+        chk.add_tlc("EventSIR on %d generic-time scenarios (reference for fast_SIR's binomial/truncated-exponential path)" % len(scn), res)
+        if res.violation:
+            chk.violation("spec|EventSIR|" + res.violation[:60], "TLC: " + res.violation, {})
+        refs = {}
+        for rec in res.printed("REF"):
+            r = event_sir.ref_of(rec)
+            refs[r["idx"] - 1] = r
+        _F.update(scn=scn, refs=refs)
+        nrun = 0
+        for i, probs in enumerate(pool_map(_fsir, range(len(scn)))):
+            if probs is None:
+                continue
+            nrun += 1
+            chk.cov["evaluations"] += 1
+            chk.cov["traces_validated_against_impl"] += 1
+            for (kind, detail) in probs:
+                chk.violation("fast_SIR(unweighted path)|%s|" % kind, detail + " [scenario %d]" % i, {"scenario": scn[i]})
+        chk.part("fast_SIR draw protocol", scenarios=nrun)
+        if nrun < len(scn) // 3:
+            raise common.MachineryFailure("fast_SIR protocol: only %d of %d scenarios usable" % (nrun, len(scn)))
+    else:
+        scn = fast_sis.scenarios(chk.seed, 1200 if chk.tier == "quick" else 12000)
+        res = fast_sis.model_check(scn)
+        chk.add_tlc("FastSISMarkov on %d (graph, weights, rates, draw tape) scenarios" % len(scn), res)
+        if res.violation:
+            chk.violation("spec|FastSISMarkov|" + res.violation[:60], "TLC: " + res.violation, {})
+        for a in ("DoTrans", "DoRec"):
+            if res.coverage.get(a, (0, 0))[1] == 0:
+                raise common.MachineryFailure("vacuous FastSISMarkov run")
+        refs = {r[1] - 1: (r[2], r[3], r[4]) for r in res.printed("REF")}
+        _F.update(scn=scn, refs=refs)
+        skipped = 0
+        redraws = 0
+        for i, probs in enumerate(pool_map(_fsis, range(len(scn)))):
+            chk.cov["evaluations"] += 1
+            if probs and probs[0][0] == "tied-skip":
+                skipped += 1
+                continue
+            chk.cov["traces_validated_against_impl"] += 1
+            if len(refs[i][0]) >= 3:
+                chk.cov["distinct_nontrivial"] += 1
+            for (kind, detail) in probs:
+                chk.violation("fast_SIS|%s|%s" % (kind, "weighted" if scn[i]["weighted"] else "unweighted"), detail + " [scenario %d]" % i, {"scenario": scn[i]})
+        chk.part("fast_SIS draw protocol", scenarios=len(scn), skipped_because_of_ties=skipped)
+    statistical_part(chk, sis)
+
+
 def main(argv=None, sis=False):
     pid = "C02" if sis else "C01"
     chk = Check(pid, "model_checking")
     common.import_eon()
+    EoN = common.import_eon()
     gillespie_part(chk, sis, "Gillespie_SIS" if sis else "Gillespie_SIR")
+    fast_part(chk, sis, EoN)
     rule = ("every (weighted graph, rate pair, initial status vector with >=1 infected node) of the TLC-emitted NetEpi state graph is one scenario; "
             "the implementation's complete decision tree under the scripted random source is enumerated (leaves = evaluations) and compared at every "
             "history with the chain's enabled events, their probabilities, the clock rate and the stopping states; non-trivial = the tree contains at least one event")
